@@ -82,14 +82,16 @@ def run(ctx):
     def counter():
         for rel, q in ((SAL, 'Salsa20.keystream'), (CHA, 'Chacha.keystream')):
             t = ctx.fn_term(rel, q)
-            ands = [x for x in T.walk(t) if x[0] == '&' and any(T.is_int(y) for y in x[1])]
-            shifts = [x for x in T.walk(t) if x[0] == '>>' and T.is_int(x[1][1])]
+            # normal form over Python ints: i & (2^k-1) is i % 2^k, i >> k is i // 2^k
+            lows = [x for x in T.walk(t) if x[0] == '%' and T.is_int(x[1][1])]
+            highs = [x for x in T.walk(t) if x[0] == '//' and T.is_int(x[1][1])]
+            lows += [('%', (([y for y in x[1] if not T.is_int(y)] or [None])[0], T.C([y[1] for y in x[1] if T.is_int(y)][0] + 1)))
+                     for x in T.walk(t) if x[0] == '&' and any(T.is_int(y) for y in x[1])]
+            highs += [('//', (x[1][0], T.C(1 << x[1][1][1]))) for x in T.walk(t) if x[0] == '>>' and T.is_int(x[1][1]) and 0 <= x[1][1][1] < 4096]
             ok = False
-            for a in ands:
-                m = [y[1] for y in a[1] if T.is_int(y)][0]
-                var = [y for y in a[1] if not T.is_int(y)]
-                for s in shifts:
-                    if var and s[1][0] == var[0] and m == (1 << s[1][1][1]) - 1 and s[1][1][1] == 32:
+            for a in lows:
+                for h in highs:
+                    if a[1][0] is not None and a[1][0] == h[1][0] and a[1][1] == h[1][1] == T.C(1 << 32):
                         ok = True
             ctx.check(q + ' counter words', ok, 'the block counter is not split as (i & (2^32-1), i >> 32): low mask and high shift must cover the same 32 bits',
                       ctx.where(rel, q))
